@@ -41,10 +41,11 @@ def _maybe_rename_grid_positions(grid, arr_source, arr_target):
 def _maybe_swap_dimension_names(da, from_name, to_name):
     # renames 1D slices and swaps dimension names for higher dimensional slices
     if to_name in da.dims:
-        da = da.rename({to_name: to_name + "dummy"})
         if from_name in da.dims:
-            da = da.rename({from_name: to_name})
-        da = da.rename({to_name + "dummy": from_name})
+            # swap in one step (no temporary name that could collide with another dimension)
+            da = da.rename({from_name: to_name, to_name: from_name})
+        else:
+            da = da.rename({to_name: from_name})
     else:
         da = da.rename({from_name: to_name})
     return da
